@@ -402,3 +402,141 @@ func Canonical(doc []byte, strip map[string]bool) string {
 	b, _ := json.Marshal(StripKeys(t, strip))
 	return string(b)
 }
+
+// ---- leaf enumeration (used for "alter every leaf of a proof tree")
+
+// JSONLeafCount returns the number of leaves (strings, numbers, bools, nulls) of doc.
+func JSONLeafCount(doc []byte) int {
+	t, err := ParseJSON(doc)
+	if err != nil {
+		return 0
+	}
+	n := 0
+	for _, nd := range collect(&root{v: t}) {
+		k := kindOf(nd.get())
+		if k != "object" && k != "array" {
+			n++
+		}
+	}
+	return n
+}
+
+// JSONAlterLeaf alters leaf number i (in deterministic document order). mode: "+1" adds one to an
+// integer leaf (base64 or number), "zero" sets it to zero, "remove" deletes it (null for array
+// elements), "swap" exchanges it with the next leaf of the same kind in the same container.
+// Returns the new document, the path of the leaf and whether the alteration changed anything.
+func JSONAlterLeaf(doc []byte, i int, mode string) ([]byte, string, bool) {
+	t, err := ParseJSON(doc)
+	if err != nil {
+		return nil, "", false
+	}
+	r := &root{v: t}
+	var leaves []*jnode
+	for _, nd := range collect(r) {
+		k := kindOf(nd.get())
+		if k != "object" && k != "array" {
+			leaves = append(leaves, nd)
+		}
+	}
+	if i < 0 || i >= len(leaves) {
+		return nil, "", false
+	}
+	n := leaves[i]
+	changed := false
+	switch mode {
+	case "+1", "zero":
+		switch v := n.get().(type) {
+		case string:
+			raw, err := base64.StdEncoding.DecodeString(v)
+			if err != nil {
+				n.set(v + "A")
+				changed = true
+				break
+			}
+			x := new(big.Int).SetBytes(raw)
+			if mode == "+1" {
+				x.Add(x, big.NewInt(1))
+				changed = true
+			} else {
+				changed = x.Sign() != 0
+				x.SetInt64(0)
+			}
+			n.set(b64(x))
+		case json.Number:
+			x, ok := new(big.Int).SetString(v.String(), 10)
+			if !ok {
+				n.set(json.Number("0"))
+				changed = true
+				break
+			}
+			if mode == "+1" {
+				x.Add(x, big.NewInt(1))
+				changed = true
+			} else {
+				changed = x.Sign() != 0
+				x.SetInt64(0)
+			}
+			n.set(json.Number(x.String()))
+		case bool:
+			n.set(!v)
+			changed = true
+		default:
+			n.set(json.Number("1"))
+			changed = true
+		}
+	case "remove":
+		if n.inMap {
+			n.del()
+		} else {
+			n.set(nil)
+		}
+		changed = true
+	case "swap":
+		pp := parentPath(n.path)
+		for j := i + 1; j < len(leaves); j++ {
+			o := leaves[j]
+			if parentPath(o.path) == pp && kindOf(o.get()) == kindOf(n.get()) {
+				a, b := n.get(), o.get()
+				if fmt.Sprint(a) != fmt.Sprint(b) {
+					n.set(b)
+					o.set(a)
+					changed = true
+				}
+				break
+			}
+		}
+	}
+	out, err := json.Marshal(r.v)
+	if err != nil {
+		return nil, n.path, false
+	}
+	return out, n.path, changed
+}
+
+// JSONLeafKind maps a leaf path to a coarse kind: digits are dropped, so that
+// "/PprimeIsPrimeProof/AnegResult/3" and ".../5" are the same kind.
+func JSONLeafKind(path string) string {
+	out := make([]byte, 0, len(path))
+	for i := 0; i < len(path); i++ {
+		if path[i] < '0' || path[i] > '9' {
+			out = append(out, path[i])
+		}
+	}
+	return string(out)
+}
+
+// JSONLeafPaths returns the paths of all leaves in the order used by JSONAlterLeaf.
+func JSONLeafPaths(doc []byte) []string {
+	t, err := ParseJSON(doc)
+	if err != nil {
+		return nil
+	}
+	var out []string
+	for _, nd := range collect(&root{v: t}) {
+		k := kindOf(nd.get())
+		if k != "object" && k != "array" {
+			out = append(out, nd.path)
+		}
+	}
+	return out
+}
